@@ -159,7 +159,7 @@ def mk_fn_hugr(i, o, reqs=()):
     h = Hugr(ops.DFG(mk_row(i), mk_row(o), list(reqs)))
     inp = h.add_node(ops.Input(mk_row(i)), h.root, num_outs=len(i))
     out = h.add_node(ops.Output(mk_row(o)), h.root)
-    body = h.add_node(ops.Custom("body", tys.FunctionType(mk_row(i), mk_row(o)), extension="gen.ext"), h.root, num_outs=len(o))
+    body = h.add_node(ops.Custom("body", tys.FunctionType(mk_row(i), mk_row(o)), extension="gen.ext"), h.root, num_outs=len(o), metadata={"k": [1, None], "name": "body"})
     for k in range(len(i)):
         h.add_link(inp.out(k), body.inp(k))
     for k in range(len(o)):
